@@ -214,3 +214,39 @@ def replay_case(ctx, obj, is_bad):
         vlib.report_violation(ctx, obj)
         return 1
     return 0
+
+
+def directed_from_calendar(hbin, dbin, auxbad, is_failure, limit=3):
+    """Failing-input search seeded from calendar/day-target mismatches: cron evaluations placed on
+    and around the dates where the implementation's calendar arithmetic differs from the model's."""
+    import calendar
+    import datetime
+    found = []
+    seen = set()
+    for b in auxbad[:6]:
+        try:
+            y, m = int(b["y"]), int(b["m"])
+        except (KeyError, ValueError):
+            continue
+        d = int(b.get("d", 1)) if str(b.get("d", "1")).isdigit() else 1
+        if (y, m) in seen:
+            continue
+        seen.add((y, m))
+        exprs = ["0 0 0 * * ?", "0 0 0 L * ?", "0 0 0 LW * ?", "0 0 0 L-1 * ?", "0 0 0 %d %d ?" % (d, m), "0 0 0 28-31 * ?",
+                 "0 0 0 ? * 1-7", "0 0 0 ? * 1#5", "0 0 0 ? * 3#5", "0 0 0 ? * 6L", "0 0 0 %dW * ?" % d]
+        if "expr" in b:
+            exprs.insert(0, b["expr"])
+        base = datetime.datetime(y, m, 1, tzinfo=datetime.timezone.utc)
+        prevs = [int((base + datetime.timedelta(days=k)).timestamp()) * 10**9 for k in (-3, d - 3, d - 2, d - 1, 24, 26, 27)]
+        for ex in exprs:
+            for pv in prevs:
+                if pv < 0:
+                    continue
+                rec = _run_shard((hbin, dbin, ["one", "-expr", ex, "-loc", "UTC", "-prev", str(pv)]))
+                for c in rec["cases"]:
+                    why = is_failure(c)
+                    if why:
+                        found.append({"case": case_view(c), "why": why, "replay": {"expr": c["expr"], "loc": c["loc"], "prev": c["prev"]}})
+                        if len(found) >= limit:
+                            return found
+    return found
